@@ -28,6 +28,7 @@ CONSTANTS
   FailSaves = FALSE
   Focus = TRUE
   Record = FALSE
+  Scrapes = FALSE
   Marking = TRUE
   WindAt = 0
   Gaps = {}
